@@ -306,6 +306,7 @@ func c08Subs(depth int) c08Result {
 	// batches: several entries in one call (two or three of them matching, the same value twice as data and as hash)
 	ops = append(ops, "sub:direct+raw+short", "unsub:direct+raw", "unsub:direct+short", "unsub:raw+short", "unsub:direct+raw+short", "unsub:raw+hash(raw)")
 	probes := map[string][]byte{
+		"push 20 zero bytes": append([]byte{20}, make([]byte, 20)...),
 		"push raw":        append([]byte{33}, u.raw...),
 		"push hash(raw)":  append([]byte{20}, u.rawHash[:]...),
 		"push direct":     append([]byte{20}, u.direct[:]...),
@@ -313,11 +314,33 @@ func c08Subs(depth int) c08Result {
 		"push hash(short)": append([]byte{20}, u.shortHash[:]...),
 	}
 	viol := map[string]bool{}
+	// the same tx objects are asked about again and again while the filter changes (a node sees a tx
+	// unconfirmed and again in its block, with subscriptions changing in between)
+	probeTx := map[string]*wire.MsgTx{}
+	for pn, sc := range probes {
+		probeTx[pn] = placeScript(sc, 0)
+	}
 	var rec func(seq []string)
 	rec = func(seq []string) {
 		node := c08NewNode()
 		sub := &c08Sub{counts: map[[20]byte]int{}}
-		for _, op := range seq {
+		for oi, op := range seq {
+			if oi == len(seq)-1 {
+				// ask about every probe just before the last operation, so that the final answers below are
+				// second answers for the same objects after a filter change
+				for _, pn := range []string{"push direct", "push raw", "push short"} {
+					node.IsRelevant(ctx, probeTx[pn])
+					res.Evals++
+					if got, want := node.IsRelevant(ctx, probeTx[pn]), sub.refRelevant([][]byte{probes[pn]}); got != want {
+						class := fmt.Sprintf("before last op: got %v want %v", got, want)
+						if !viol[class] {
+							viol[class] = true
+							res.Violations = append(res.Violations, core.Violation{Property: "C08", Clause: "subscription-multiset", Class: class,
+								Detail: fmt.Sprintf("after %v a tx with %s is relevant=%v, reference multiset says %v", seq[:oi], pn, got, want), Witness: map[string]interface{}{"subs": seq[:oi]}})
+						}
+					}
+				}
+			}
 			p := strings.SplitN(op, ":", 2)
 			var batch [][]byte
 			for _, n := range strings.Split(p[1], "+") {
@@ -338,7 +361,7 @@ func c08Subs(depth int) c08Result {
 		for pn, sc := range probes {
 			res.Evals++
 			want := sub.refRelevant([][]byte{sc})
-			got := node.IsRelevant(ctx, placeScript(sc, 0))
+			got := node.IsRelevant(ctx, probeTx[pn])
 			if got != want {
 				last := "none"
 				if len(seq) > 0 {
